@@ -541,7 +541,7 @@ def right(text, num_chars=1):
 
     if num_chars < 0:
         return VALUE_ERROR
-    elif num_chars == 0:
+    elif int(num_chars) == 0:
         return ''
     else:
         return str(text)[-int(num_chars):]
